@@ -1,7 +1,7 @@
 ---------------------------- MODULE MC_DynLists ----------------------------
 EXTENDS Integers, Sequences, FiniteSets, TLC
-CONSTANT AsFound
+CONSTANTS AsFound, WithStatic
 VARIABLES allow, old, new, pc, reads
-INSTANCE DynLists WITH Keys <- {"x", "y", "s", "z"}, Static <- {"s"}, Targets <- {{}, {"x"}, {"x", "y"}, {"y"}}
+INSTANCE DynLists WITH Keys <- {"x", "y", "s", "z"}, Static <- (IF WithStatic THEN {"s"} ELSE {}), Targets <- {{}, {"x"}, {"x", "y"}, {"y"}}
 Bound == Cardinality(reads) <= 6
 =============================================================================
